@@ -160,6 +160,28 @@ func outputFlow(f *lib.File, body *ast.BlockStmt) []string {
 	return res
 }
 
+// tmpOpens lists every call that opens a file whose name mentions the given suffix constant: the callee and, for
+// os.OpenFile, its flags.
+func tmpOpens(f *lib.File, body ast.Node, suffixConst string) []string {
+	var res []string
+	ast.Inspect(body, func(n ast.Node) bool {
+		c, ok := n.(*ast.CallExpr)
+		if !ok || len(c.Args) == 0 || !strings.Contains(f.Render(c.Args[0]), suffixConst) {
+			return true
+		}
+		switch fn := f.Render(c.Fun); fn {
+		case "os.Create", "os.Open":
+			res = append(res, fn)
+		case "os.OpenFile":
+			if len(c.Args) >= 2 {
+				res = append(res, fn+" "+f.Render(c.Args[1]))
+			}
+		}
+		return true
+	})
+	return res
+}
+
 // Sources lists the files read by Emit.
 var Sources = []string{"consts/consts.go", "frac/active_sealer.go", "frac/disk_blocks_producer.go", "frac/disk_blocks_writer.go", "disk/blocks_writer.go", "disk/block_former.go", "bytespool/writer.go", "fracmanager/proxy_frac.go", "frac/active.go", "fracmanager/loader.go", "frac/sealed.go"}
 
@@ -198,6 +220,7 @@ func Emit(r lib.Repo, e *lib.Emitter) {
 				return true
 			})
 			e.Strs("sealNames", args, "frac.Seal: the file names created / renamed to")
+			e.Strs("indexTmpOpen", tmpOpens(f, fd.Body, "IndexTmpFileSuffix"), "frac.Seal: how the temporary index file is opened (os.Create = create or truncate)")
 			ss := ErrSites(f, fd.Body, true)
 			e.Bool("sealPropagates", AllProp(ss) && len(ss) > 0, fmt.Sprintf("frac.Seal: all %d `err != nil` sites return the error", len(ss)))
 			// the error of writeSealedFraction is checked before syncRename is reached
@@ -233,6 +256,7 @@ func Emit(r lib.Repo, e *lib.Emitter) {
 				return true
 			})
 			e.Strs("writeSortedDocsNames", args, "writeSortedDocs: the file names created / renamed to")
+			e.Strs("sdocsTmpOpen", tmpOpens(f, fd.Body, "SdocsTmpFileSuffix"), "writeSortedDocs: how the temporary sorted-docs file is opened (os.Create = create or truncate)")
 			// the success return: what is handed to writeSealedFraction must not alias the pooled docBlocksWriter
 			var ret []string
 			if n := len(fd.Body.List); n > 0 {
